@@ -394,13 +394,16 @@ def _error_decl_mode(db, b, t):
     key = (db.dir, val)
     if key in _DECL_CACHE:
         return _DECL_CACHE[key]
-    setters = {}
-    for bi, ct in se.calls():
-        d = callee_def(ct)
-        if d == SER + "set_xml_body_no_decl":
-            setters[bi] = "no_decl"
-        elif d == SER + "set_xml_body":
-            setters[bi] = "decl"
+    # serialize_error with the XML body setters of http::ser inlined: what matters is whether `Serializer::decl()` runs on the path the
+    # selector value takes, whichever function the choice is written in
+    def pol(db_, caller, term, callee):
+        if callee is not None and callee.name.startswith(SER + "set_xml_body") and callee.kind in ("Fn", "AssocFn") and len(callee.blocks) <= inline.MAX_BLOCKS:
+            return True
+        return inline.default_policy(db_, caller, term, callee)
+    pol.__name__ = "c03_error_decl"
+    se = inline.inlined(db, se, pol)
+    decls = {bi for bi, ct in se.calls() if short(callee_def(ct)) == "decl" and "xml::ser::Serializer" in callee_def(ct)}
+    sers = {bi for bi, ct in se.calls() if short(callee_def(ct)) in ("serialize", "serialize_content") and "xml::ser" in callee_def(ct)}
     out = None
     for sb in se.live_blocks():
         st = se.blocks[sb]["term"]
@@ -429,10 +432,18 @@ def _error_decl_mode(db, b, t):
                 target = st["otherwise"]
         if target is None:
             continue
-        reach = flow.reach(se, [target], stop_blocks=frozenset([sb]))
-        modes = {m for bi, m in setters.items() if bi in reach}
-        if len(modes) == 1:
-            out = modes.pop()
+        others = set()
+        for lab, tb in se.succ_edges(sb):
+            if tb != target:
+                others |= flow.reach(se, [tb], stop_blocks=frozenset([sb]))
+        mine = flow.reach(se, [target], stop_blocks=frozenset([sb]))
+        only_mine = mine - others
+        if decls & only_mine:
+            out = "decl"
+        elif (sers & mine) and not (decls & mine):
+            out = "no_decl"
+        elif decls & (others - mine) and not (decls & mine):
+            out = "no_decl"
     _DECL_CACHE[key] = out
     return out
 
